@@ -288,3 +288,23 @@ Proof. vm_compute. reflexivity. Qed.
 
 Example vec_repaired_alloc_capped : dec (c_vec c_byte) (le8 (2 ^ 40)) = DErr 1024.
 Proof. vm_compute. reflexivity. Qed.
+
+Theorem restore_is_identity {A} (c : codec A) : codec_ok c -> forall v, wf c v -> res_of (dec c (enc c v)) = Some (v, []).
+Proof. intros Hc v Hv. rewrite <- (app_nil_r (enc c v)). now apply (ok_roundtrip c Hc). Qed.
+
+Theorem array_never_panics {A} (c : codec A) : codec_ok c -> forall (n : nat), Z.of_nat n + 1 < 2 ^ 64 ->
+  forall bs, dec (c_array n c) bs <> DPanic /\ alloc_of (dec (c_array n c) bs) <= 1024.
+Proof. intros Hc n Hn bs. destruct (ok_array c Hc n Hn) as [_ _ P Al]. auto. Qed.
+
+Theorem vec_never_panics_and_caps_allocation {A} (c : codec A) : codec_ok c ->
+  forall bs, dec (c_vec c) bs <> DPanic /\ alloc_of (dec (c_vec c) bs) <= 1024.
+Proof. intros Hc bs. split.
+  - unfold c_vec; cbn [dec]. unfold dec_vec. destruct (take 8 bs) as [[lb r]|]; [|discriminate].
+    pose proof (vec_go_no_panic c Hc (S (length r)) (le_to_Z lb) [] r). destruct (dec_vec_go c _ _ [] r); congruence.
+  - unfold c_vec; cbn [dec]. unfold dec_vec. destruct (take 8 bs) as [[lb r]|]; [|cbn [alloc_of]; lia].
+    pose proof (vec_go_alloc c Hc (S (length r)) (le_to_Z lb) [] r) as Al.
+    pose proof (Z.le_min_r (le_to_Z lb) 1024) as Mn.
+    destruct (dec_vec_go c (S (length r)) (le_to_Z lb) [] r); cbn [alloc_of] in *; lia. Qed.
+
+Theorem every_codec_total {A} (c : codec A) : codec_ok c -> forall bs, dec c bs <> DPanic /\ alloc_of (dec c bs) <= 1024.
+Proof. intros [_ _ P Al] bs. auto. Qed.
